@@ -20,12 +20,6 @@ def c03_block_granular_dtype_widening(w):
 
 
 @predicate
-def c03_reduce_layout_dependent(w):
-    k = w['klass']
-    return w['what'] == 'layout_dependent_outcome' and k.get('operation') == 'reduce'
-
-
-@predicate
 def c03_reindex_no_row_overlap(w):
     k = w['klass']
     return w['what'] == 'layout_dependent_outcome' and k.get('operation') == 'reindex' and k.get('no_row_overlap') is True
